@@ -40,6 +40,7 @@ import (
 	"elaverif/harness/hx"
 	"elaverif/harness/regnet"
 
+	"github.com/elastos/Elastos.ELA/account"
 	"github.com/elastos/Elastos.ELA/blockchain"
 	"github.com/elastos/Elastos.ELA/common"
 	"github.com/elastos/Elastos.ELA/common/config"
@@ -136,14 +137,32 @@ func execRew(t []string) string {
 	return fmt.Sprintf("%d %d", int64(r), int64(r))
 }
 
+// the addresses the property fixes, as literals (NOT read from the configuration under test)
+func lit(a string) common.Uint168 {
+	h, err := common.Uint168FromAddress(a)
+	if err != nil {
+		panic("harness: bad literal address " + a)
+	}
+	return *h
+}
+
+var (
+	litCR      = lit("CRASSETSXXXXXXXXXXXXXXXXXXXX2qDX5J")
+	litDestroy = lit("ELANULLXXXXXXXXXXXXXXXXXXXXXYvs3rr")
+	litStake   = lit("STAKEREWARDXXXXXXXXXXXXXXXXXFD5SHU")
+	litPool    = lit("STAKEPooLXXXXXXXXXXXXXXXXXXXpP1PQ2")
+)
+
 func addrOf(a string) common.Uint168 {
 	switch a {
 	case "cr":
-		return *params.CRConfiguration.CRAssetsProgramHash
+		return litCR
 	case "des":
-		return *params.DestroyELAProgramHash
+		return litDestroy
 	case "stk":
-		return *params.DPoSConfiguration.DPoSV2RewardAccumulateProgramHash
+		return litStake
+	case "spl":
+		return litPool
 	case "fnd":
 		return *params.FoundationProgramHash
 	case "min":
@@ -162,12 +181,14 @@ func addrOf(a string) common.Uint168 {
 
 func addrName(u common.Uint168) string {
 	switch {
-	case u.IsEqual(*params.CRConfiguration.CRAssetsProgramHash):
+	case u.IsEqual(litCR):
 		return "cr"
-	case u.IsEqual(*params.DestroyELAProgramHash):
+	case u.IsEqual(litDestroy):
 		return "des"
-	case u.IsEqual(*params.DPoSConfiguration.DPoSV2RewardAccumulateProgramHash):
+	case u.IsEqual(litStake):
 		return "stk"
+	case u.IsEqual(litPool):
+		return "spl"
 	case u.IsEqual(*params.FoundationProgramHash):
 		return "fnd"
 	case u.IsEqual(minerPH):
@@ -214,8 +235,35 @@ func cbClass(err error) string {
 
 func isV2(active, h uint32) bool { return active != math.MaxUint32 && h > active+1 }
 
+// usePreset points the chain's parameters at the reward addresses of a built-in network preset for
+// the duration of one op (the chain object holds `params` itself)
+func usePreset(net string) func() {
+	var p *config.Configuration
+	switch net {
+	case "mainnet":
+		p = config.GetDefaultParams()
+	case "testnet":
+		p = config.GetDefaultParams().TestNet()
+	case "regnet":
+		p = config.GetDefaultParams().RegNet()
+	default:
+		panic("harness: net " + net)
+	}
+	o1, o2, o3 := params.DPoSConfiguration.DPoSV2RewardAccumulateProgramHash, params.CRConfiguration.CRAssetsProgramHash, params.DestroyELAProgramHash
+	params.DPoSConfiguration.DPoSV2RewardAccumulateProgramHash = p.DPoSConfiguration.DPoSV2RewardAccumulateProgramHash
+	params.CRConfiguration.CRAssetsProgramHash = p.CRConfiguration.CRAssetsProgramHash
+	params.DestroyELAProgramHash = p.DestroyELAProgramHash
+	return func() {
+		params.DPoSConfiguration.DPoSV2RewardAccumulateProgramHash, params.CRConfiguration.CRAssetsProgramHash, params.DestroyELAProgramHash = o1, o2, o3
+	}
+}
+
 func execCb(t []string) string {
 	setup()
+	if t[0] == "cbn" || t[0] == "asgn" {
+		defer usePreset(t[1])()
+		t = append([]string{t[0]}, t[2:]...)
+	}
 	h, active := atou32(t[1]), atou32(t[2])
 	fees, reward, dposReward := f64(t[4]), f64(t[5]), f64(t[6])
 	if params.GetBlockReward(h) != reward {
@@ -296,6 +344,9 @@ func setupNode() {
 	n, err := regnet.NewNode(dir, regnet.Options{NoPoolEvents: true, Tweak: func(p *config.Configuration) {
 		p.PowConfiguration.CoinbaseMaturity = 0
 		p.CheckRewardHeight = 0
+		// account 0 is the only origin arbiter (always on duty): side-chain mining proofs can be signed
+		pk, _ := account0PK()
+		p.DPoSConfiguration.OriginArbiters = []string{common.BytesToHexString(pk)}
 	}})
 	if err != nil {
 		panic("harness: regnet: " + err.Error())
@@ -323,6 +374,30 @@ func setupNode() {
 	blockchain.DefaultLedger, blockchain.FoundationAddress = myLedger, myFound
 }
 
+func account0PK() ([]byte, error) {
+	ac, err := account.NewAccountWithPrivateKey(regnet.DeterministicKey(0))
+	if err != nil {
+		return nil, err
+	}
+	return ac.PublicKey.EncodePoint(true)
+}
+
+// sideChainPow: an OLD-format SideChainPow (it has inputs, so it pays a fee like any transfer)
+func sideChainPow(idx int, fee common.Fixed64, nonce byte) interfaces.Transaction {
+	sb, sg := fmt.Sprintf("%02x", 0xa0+int(nonce)), fmt.Sprintf("%02x", 0xb0+int(nonce)) // one side chain per tx: the pool keeps one proof per side chain
+	sig, _ := common.HexStringToBytes(rn.SideChainPowSig(0, sb, sg))
+	pl := &payload.SideChainPow{SideBlockHash: regnet.PadHash(sb), SideGenesisHash: regnet.PadHash(sg), BlockHeight: 1, Signature: sig}
+	tx := functions.CreateTransaction(common2.TxVersion09, common2.SideChainPow, payload.SideChainPowVersion, pl,
+		[]*common2.Attribute{{Usage: common2.Nonce, Data: []byte{nonce, 9}}},
+		[]*common2.Input{{Previous: common2.OutPoint{TxID: splitTxID, Index: uint16(idx)}, Sequence: 0}},
+		[]*common2.Output{{AssetID: core.ELAAssetID, Value: splitValue - fee, ProgramHash: rn.Addr(2), Type: common2.OTNone,
+			Payload: &outputpayload.DefaultOutput{}}}, 0, nil)
+	if err := rn.Sign(tx, 1); err != nil {
+		panic("harness: sign: " + err.Error())
+	}
+	return tx
+}
+
 func execGen(t []string) string {
 	setupNode()
 	myLedger, myFound, myParams := blockchain.DefaultLedger, blockchain.FoundationAddress, config.DefaultParams
@@ -335,6 +410,10 @@ func execGen(t []string) string {
 	pool := mempool.NewTxPool(rn.Params, rn.Chain.CkpManager)
 	for i := 0; i < ntx; i++ {
 		idx, _ := strconv.Atoi(t[2+2*i])
+		if strings.HasSuffix(t[3+2*i], "s") {
+			pool.AppendToTxPoolWithoutEvent(sideChainPow(idx, f64(strings.TrimSuffix(t[3+2*i], "s")), byte(i)))
+			continue
+		}
 		fee := f64(t[3+2*i])
 		tx, err := rn.Transfer(1, []common2.OutPoint{{TxID: splitTxID, Index: uint16(idx)}},
 			[]regnet.Out{{To: 2, Value: splitValue - fee}}, uint64(100+i))
@@ -386,6 +465,10 @@ func safe(f func() error) (err error) {
 
 func execAsg(t []string) string {
 	setup()
+	if t[0] == "asgn" {
+		defer usePreset(t[1])()
+		t = append([]string{t[0]}, t[2:]...)
+	}
 	h, active := atou32(t[1]), atou32(t[2])
 	fees, reward := f64(t[4]), f64(t[5])
 	if params.GetBlockReward(h) != reward {
@@ -419,9 +502,9 @@ func exec(t []string) string {
 	switch t[0] {
 	case "rew":
 		return execRew(t)
-	case "cb":
+	case "cb", "cbn":
 		return execCb(t)
-	case "asg":
+	case "asg", "asgn":
 		return execAsg(t)
 	case "blk":
 		return execBlk(t)
@@ -581,6 +664,18 @@ func gen(g *hx.Gen) {
 		for k := range vals {
 			fmt.Fprintf(&b, " %d %s", vals[k], as[k])
 		}
+		if r.Chance(30) { // the same rule under the reward addresses of each built-in network preset
+			if r.Chance(30) && len(as) == 3 && powMode == 0 {
+				as[2] = "spl" // DPoS share to the stake POOL address: must be rejected everywhere
+				b.Reset()
+				fmt.Fprintf(&b, "%d", len(vals))
+				for k := range vals {
+					fmt.Fprintf(&b, " %d %s", vals[k], as[k])
+				}
+			}
+			g.Emit("cbn %s %d %d %d %d %d %d %s", []string{"mainnet", "testnet", "regnet"}[r.Intn(3)], h, active, powMode, fees, int64(reward), dposReward, b.String())
+			continue
+		}
 		g.Emit("cb %d %d %d %d %d %d %s", h, active, powMode, fees, int64(reward), dposReward, b.String())
 	}
 	// block level: the same coinbase vectors through checkTxsContext, with CheckRewardHeight
@@ -598,7 +693,9 @@ func gen(g *hx.Gen) {
 		}
 		vals := []int64{int64(cr), int64(miner), int64(dp)}
 		as := []string{a0, "min", a2}
-		switch r.Intn(8) {
+		switch r.Intn(9) {
+		case 6:
+			vals[2]++ // the DPoS share one sela above the exact ceiling
 		case 0, 1:
 			vals[r.Intn(3)] += int64(1 + r.Intn(500)) // pays too much
 		case 2:
@@ -645,7 +742,11 @@ func gen(g *hx.Gen) {
 			default:
 				fee = int64(r.Intn(100000)) * int64(1+r.Intn(1000))
 			}
-			fmt.Fprintf(&b, " %d %d", perm[j], fee)
+			if r.Chance(20) {
+				fmt.Fprintf(&b, " %d %ds", perm[j], fee) // an old-format SideChainPow paying this fee
+			} else {
+				fmt.Fprintf(&b, " %d %d", perm[j], fee)
+			}
 		}
 		g.Emit("%s", b.String())
 	}
@@ -660,6 +761,10 @@ func gen(g *hx.Gen) {
 		if r.Chance(10) {
 			fees = int64(r.Intn(4))
 		}
+		if r.Chance(30) {
+			g.Emit("asgn %s %d %d %d %d %d", []string{"mainnet", "testnet", "regnet"}[r.Intn(3)], h, active, r.Intn(2), fees, int64(params.GetBlockReward(h)))
+			continue
+		}
 		g.Emit("asg %d %d %d %d %d", h, active, r.Intn(2), fees, int64(params.GetBlockReward(h)))
 	}
 }
@@ -667,6 +772,9 @@ func gen(g *hx.Gen) {
 // ---------------------------------------------------------------- oracle
 
 func oracle(t []string, out string) *hx.Violation {
+	if t[0] == "cbn" || t[0] == "asgn" {
+		t = append([]string{strings.TrimSuffix(t[0], "n")}, t[2:]...)
+	}
 	switch t[0] {
 	case "rew":
 		if out == "panic" {
@@ -771,7 +879,7 @@ func oracle(t []string, out string) *hx.Violation {
 		want := int64(0)
 		acc := 0
 		for i := 0; i < ntx; i++ {
-			fee, _ := strconv.ParseInt(t[3+2*i], 10, 64)
+			fee, _ := strconv.ParseInt(strings.TrimSuffix(t[3+2*i], "s"), 10, 64)
 			if fee >= 100 && fee <= splitValue {
 				want += fee
 				acc++
@@ -796,7 +904,14 @@ func oracle(t []string, out string) *hx.Violation {
 		}
 	case "asg":
 		// a coinbase built by the node's own block builder must pass the node's check (dpos share > 0)
-		if strings.HasSuffix(out, "| ok") || out == "legacy" {
+		if out == "legacy" {
+			return nil
+		}
+		// whatever the preset, the builder pays the DPoS share to the stake-reward address (DPoS mode)
+		if f := strings.Fields(out); len(f) > 7 && f[0] == "3" && t[3] == "0" && f[6] != "stk" {
+			return &hx.Violation{Kind: "builder-address", Detail: "AssignCoinbaseTxRewards pays the DPoS share to " + f[6] + ", not to the stake-reward address"}
+		}
+		if strings.HasSuffix(out, "| ok") {
 			return nil
 		}
 		total := f64(t[4]) + f64(t[5])
